@@ -254,6 +254,10 @@ namespace Givaro {
     template <class Domain>
     inline typename Poly1Dom<Domain,Dense>::Rep& Poly1Dom<Domain,Dense>::powmod( Rep& W, const Rep& P, IntegerDom::Element pwr, const Rep& U) const
     {
+        if (&W == &U) { // the modulus is read until the end
+            Rep Uc; assign(Uc, U);
+            return powmod(W, P, pwr, Uc);
+        }
         IntegerDom ID;
         // ID.write(cerr << "\n----------- POWMOD -----------\n pwr: ", pwr) << endl;
         // write(cerr << "P: ",P) << endl;
